@@ -196,7 +196,7 @@ impl Prop for C12 {
             f.push(Family::new(
                 "spellings",
                 Mode::Full,
-                &format!("every configured source spelling of every unit converted to every configured target name of its neighbouring unit ({} spelling pairs) x connectives {:?}, amount 3", cases.len(), conns),
+                &format!("every configured source spelling of every unit converted to every configured target name of its neighbouring unit ({} spelling pairs) x connectives {:?}, amount 3 apart from the unit word and amounts 3, 14, 1 written directly onto it ('14st to lb')", cases.len(), conns),
                 move |ch| {
                     let (i, s, j, t) = ch.pick(&cases).clone();
                     let conn = *ch.pick(&conns);
@@ -204,8 +204,14 @@ impl Prop for C12 {
                     if conn == "in" && (s == "in" || t == "in") {
                         return None;
                     }
-                    let want = 3.0 * UNITS[i].factor / UNITS[j].factor;
-                    Some(Case::Line(LineCase::new(format!("3 {} {} {}", s, conn, t), Expect::Value(unit_val(want, &UNITS[j]), 1e-9), "spelling")))
+                    // the amount written directly onto the unit word ('14st', '3kg') or apart from it
+                    let (amount_text, amount) = *ch.pick(&[("3", 3.0), ("14", 14.0), ("1", 1.0)]);
+                    let glued = ch.flag();
+                    if !glued && amount != 3.0 {
+                        return None;
+                    }
+                    let want = amount * UNITS[i].factor / UNITS[j].factor;
+                    Some(Case::Line(LineCase::new(format!("{}{}{} {} {}", amount_text, if glued { "" } else { " " }, s, conn, t), Expect::Value(unit_val(want, &UNITS[j]), 1e-9), "spelling")))
                 },
             ));
         }
